@@ -590,6 +590,22 @@ def _emit(cols, s, e, present):
     return out
 
 
+def _query_offset(ref_start, ops, g):
+    """Offset in the read sequence of reference position g (None if not a match)."""
+    r, q = ref_start, 0
+    for op, n in ops:
+        if op == 0:
+            if r <= g < r + n:
+                return q + (g - r)
+            r += n
+            q += n
+        elif op == 2:
+            r += n
+        elif op in (1, 4):
+            q += n
+    return None
+
+
 def _tile(cols, L, step, phase, present, tag, reads):
     n = len(cols)
     s = phase - L + 1
@@ -646,8 +662,24 @@ def sample_reads(world, sample):
                 z0, z1 = gene["g0"] - M, gene["g1"] + M
                 cols = _haplotype(contig, z0, z1, vs)
                 present = _intervals(gene["regions"], gcn, M, M)
+                n0 = len(reads)
                 _tile(cols, L, step, phase_rng.randint(0, step - 1), present,
                       f"{gene['name']}u{ui}g", reads)
+                # noise: a fraction of this copy's reads show an extra SNP
+                for nz in unit.get("noise", []):
+                    allv = dict(gene.get("unused_variants", {}))
+                    allv.update(gene["variants"])
+                    v = allv[nz["vid"]]
+                    assert v["kind"] == "snp"
+                    if gcn[v["region"]] == 0 or any(
+                            w["g"] <= v["g"] < w["g"] + max(1, len(w["ref"])) for w in vs):
+                        continue
+                    nrng = random.Random(f"{sample.get('phase_seed', 0)}:{ui}:{nz['vid']}")
+                    for ri in range(n0, len(reads)):
+                        rs, ops_, seq, nm = reads[ri]
+                        off = _query_offset(rs, ops_, v["g"])
+                        if off is not None and nrng.random() < nz["frac"]:
+                            reads[ri] = (rs, ops_, seq[:off] + v["alt"] + seq[off + 1:], nm)
             if gene["pregions"]:
                 p0 = gene["p0"]
                 p1 = p0 + gene["g1"] - gene["g0"]
